@@ -1793,12 +1793,45 @@ def _whole_v(fmt, cause, text, want, got, what=None):
             'impl': {'want': want, 'got': got}}
 
 
+def model_formatter(drv):
+    """(context values, value) -> what the Lean formatter model (format.fmt = Format.fmtVal, the faithful tree model of
+    C08/C09) makes of it, in the plain form the monitors compare ({'ok': wire} / {'err': …}); None = outside the
+    model's domain (rejected / unencodable): impl_c16.real_format then falls back on pypyr's own formatter."""
+    def ref(ctx_values, value):
+        try:
+            m = drv.ask('format.fmt', ctx=enc(I.plain_keep(dict(ctx_values))), v=enc(I.plain_keep(value)))
+        except (common.Reject, TypeError, ValueError):
+            return None
+        if 'ok' in m:
+            return {'ok': enc(I.plain(dec(m['ok'])))}
+        return {'err': m['err']['name']}
+    return ref
+
+
+def run_formatter(drv, case):
+    """flow `formatter`: Context.get_formatted_value against the Lean formatter model on one value (strings with every
+    brace pattern, as keys and values, nested): C08/C09 own the formatter; this flow is here so that C16 has a verdict
+    with a concrete input when the formatter under the file steps is what broke. The disagreement is picked up by
+    `absorb` from rec['fmt_disagree'] like for every other flow."""
+    ctx, v = dec(case['ctx']), dec(case['value'])
+    rec = {'case': case, 'counts': ['flow:formatter']}
+    want = I.real_format(ctx, v)
+    rec['counts'].append('formatter:' + ('ok' if 'ok' in want else 'err:' + str(want.get('err'))[:30]))
+    return rec
+
+
 RUNNERS = {'ctxsession': run_ctxsession, 'wholectx': run_wholectx, 'writefetch': run_writefetch, 'fileformat': run_fileformat, 'jsonprint': run_jsonprint,
-           'jsonparse': run_jsonparse, 'session': run_session, 'parser': run_parser_flow}
+           'jsonparse': run_jsonparse, 'session': run_session, 'parser': run_parser_flow, 'formatter': run_formatter}
 
 
 def run_case(drv, case):
-    return RUNNERS[case['flow']](drv, case)
+    I.REF_FORMATTER = model_formatter(drv)
+    del I.FORMAT_DISAGREEMENTS[:]
+    rec = RUNNERS[case['flow']](drv, case)
+    if I.FORMAT_DISAGREEMENTS:
+        rec['fmt_disagree'] = list(I.FORMAT_DISAGREEMENTS)
+        del I.FORMAT_DISAGREEMENTS[:]
+    return rec
 
 
 CASE_TIMEOUT = 30
@@ -2073,6 +2106,25 @@ def absorb(res, rec):
         return
     if 'mismatch' in rec:
         res.mismatch(case, rec.get('model'), rec.get('impl'), rec['mismatch'])
+    for fd in (rec.get('fmt_disagree') or [])[:2]:
+        # Context.get_formatted_value vs the Lean formatter model on a value of this case. In the flow `formatter` this IS
+        # the verdict (the formatter under the file steps); in the other flows the monitors judge the files against the
+        # model's value and this line says where the difference comes from.
+        res.count('formatter-differs-from-model')
+        if 'ok' in fd['impl']:
+            what, a, b = first_diff(I.sort_wire(fd['model']['ok']), I.sort_wire(fd['impl']['ok']))
+            detail = (f"Context.get_formatted_value on {json.dumps(fd['value'])[:200]}: at a {what} node the formatter model "
+                      f"(python format syntax: '{{{{' -> '{{', '}}}}' -> '}}', expressions substituted) gives {json.dumps(a)[:160]}, "
+                      f"the implementation {json.dumps(b)[:160]}")
+            cause = 'formatted-value-differs-from-model:' + cause_of(what, a)
+        else:
+            detail = (f"Context.get_formatted_value on {json.dumps(fd['value'])[:200]} raised {fd['impl'].get('err')}: "
+                      f"{fd['impl'].get('msg')}; the formatter model gives {json.dumps(fd['model']['ok'])[:200]}")
+            cause = 'formatter-raised-where-model-formats'
+        if case['flow'] == 'formatter':
+            res.violation(case, 'formatter: ' + detail, signature={'flow': 'formatter', 'cause': cause}, impl=fd)
+        else:
+            res.mismatch(case, fd['model'], fd['impl'], 'formatter model differs from Context.get_formatted_value: ' + detail)
     for pr in (rec.get('session_problems') or [])[:3]:
         tags = [f"{o['kind']}:{o['format']}" + (':' + o['reader'] if o.get('reader') else '') for o in case['ops']]
         where = f"session {tags}, operation {pr['op']} ({pr['kind']} {pr['format']}" + \
@@ -2138,6 +2190,57 @@ def absorb(res, rec):
             detail += f" [route {case['route']}, options {case['encopts']}: read as {e_in}, to be written as {e_out}]"
         res.violation(case, detail, signature=sig,
                       impl={'want': mon['want'], 'got': mon['got'], 'via': mon.get('via')})
+
+
+# --------------------------------------------------------------------------
+# brace patterns: every arrangement of escaped / unescaped braces, as values and keys
+# --------------------------------------------------------------------------
+
+BRACE_TOKENS = ['{{', '}}', '{k1}', 'a', ' b ', 'é', '{k2}']
+BRACE_EXTRA = ['}}}}', '{{{{', '{{{{{{', '}}}}}}', '{{{k1}}}', '{{{{k1}}}}', '{{{{{k1}}}}}', 'json tail: 1]}}', 'a }} b',
+               '}} at start', 'at end }}', '{{ at start', 'at end {{', '}}{{}}{{', 'x}}y}}z', 'x{{y{{z', '{{}}', '}}{{',
+               '{{"a": {{"b": [1, 2]}}}}', 'fn() {{ return; }}', '${{VAR}}', '%}}%', '}}\n}}', '{k1}}}', '}}{k1}', '{{{k1}',
+               '{k1}{{', '{k4[a]}}}', '}}{k3[1]}', '{k1:>4}}}', '{k1!r}}}']
+BRACE_BAD = ['}', '{', 'a}', '{a', '}}}', '{{{', 'a } b', '}{', '{}', '}} }', '{k1}}']    # ValueError / IndexError: refused
+
+
+def brace_strings(rng=None, n=None):
+    """every sequence of 1-3 BRACE_TOKENS (only closing, only opening, mixed, at start / end, repeated, next to
+    expressions) + deeper nestings; with `rng`: n random sequences of 1-7 tokens"""
+    import itertools
+    if rng is not None:
+        return [''.join(rng.choice(BRACE_TOKENS) for _ in range(rng.randint(1, 7))) for _ in range(n)]
+    out = []
+    for k in (1, 2, 3):
+        for t in itertools.product(BRACE_TOKENS, repeat=k):
+            s = ''.join(t)
+            if s not in out:
+                out.append(s)
+    return out + [s for s in BRACE_EXTRA if s not in out]
+
+
+def brace_docs(strings, per=6):
+    """mappings holding the strings as values, list members, nested values and KEYS (a key keeps a distinguishing
+    suffix / prefix so that formatted keys do not collide)"""
+    docs = []
+    for i in range(0, len(strings), per):
+        ss = strings[i:i + per]
+        ss = ss + ss[:per - len(ss)] if len(ss) < per else ss
+        docs.append({'v': ss[0], 'l': [ss[1], 7, {'n': ss[2]}], ss[3] + '#k1': ss[4], '2k#' + ss[5]: {ss[0] + '#in': [ss[3]]},
+                     'deep': {'a': {'b': {'c': [[ss[5]]]}}}})
+    return docs
+
+
+def brace_cases(strings, tag, every=1):
+    cases = []
+    for j, d in enumerate(brace_docs(strings)):
+        cases.append({'flow': 'formatter', 'ctx': enc(CTXV), 'value': enc(d), 'tag': tag})
+        for fi, fmt in enumerate(('json', 'yaml', 'toml')):
+            if (j + fi) % every:
+                continue
+            cases.append(writefetch_case(fmt, d, VARIANTS[j % 2]))
+            cases.append(fileformat_case(fmt, d, inplace=(j % 2 == 0)))
+    return cases
 
 
 def build_cases(env):
@@ -2277,7 +2380,18 @@ def build_cases(env):
     cases += directed_wholectx()
     # ---- sessions
     cases += directed_sessions()
+    # ---- brace patterns: the formatter flow on every string on its own; documents of them through the three routes
+    bs = brace_strings()
+    for x in bs + BRACE_BAD:
+        cases.append({'flow': 'formatter', 'ctx': enc(CTXV), 'value': enc(x), 'tag': 'brace-single'})
+        cases.append({'flow': 'formatter', 'ctx': enc(CTXV), 'value': enc({x + '#': [x]}), 'tag': 'brace-key'})
+    cases += brace_cases(bs, 'brace-doc', every=env.n(3, 1))
+    for x in BRACE_BAD[:4]:
+        for fmt in ('json', 'yaml', 'toml'):
+            cases.append(fileformat_case(fmt, {'a': 'fine }}', 'b': x}, inplace=True))
+            cases.append(writefetch_case(fmt, {'a': 'fine }}', 'b': x}, 'key'))
     n_directed = len(cases)
+    cases += brace_cases(brace_strings(rng, env.n(120, 6000)), 'brace-random', every=env.n(3, 1))
     for _ in range(env.n(120, 6000)):
         cases.append(random_ctxsession(rng))
     for _ in range(env.n(40, 2500)):
